@@ -70,9 +70,9 @@ Proof. exact oracle_c03_run_model. Qed.
 Print Assumptions c03_oracle_run.
 
 (** Every sequence of successful and failed runs against the same agent. *)
-Theorem c03_oracle_session : forall dir chal keypair, Injective keypair -> forall rs s,
+Theorem c03_oracle_session : forall chal keypair, Injective keypair -> forall rs s,
   store_inv keypair s ->
-  oracle_c03_session (s_store s) rs (snd (session dir chal keypair rs s)) = true.
+  oracle_c03_session (s_store s) rs (snd (session chal keypair rs s)) = true.
 Proof. exact oracle_c03_session_model. Qed.
 Print Assumptions c03_oracle_session.
 
@@ -176,9 +176,9 @@ Definition ex_params : params :=
 Definition ex_foreign : ident := mkIdent (BCert 50 51) 50 (tx "Paranoids.Regular-cert") 0.
 Example c03_ex_two_generations :
   let conf := mkHconf 60 [(1%Z, tx "id")] in
-  let rs := [mkRunIn (Some ex_params) [Regular conf] (Honest 7) (fun _ => None) (fun _ => SOk [SCert 200 900] []);
-             mkRunIn (Some ex_params) [Regular conf] (Honest 7) (fun _ => None) (fun _ => SOk [SCert 201 901; SPlain 201] [])] in
-  map o_store (snd (session ex_dir (fun n => 100 + N.of_nat n) (fun n => 200 + N.of_nat n) rs (init_state [ex_foreign])))
+  let rs := [mkRunIn ex_dir (Some ex_params) [Regular conf] (Honest 7) (fun _ => None) (fun _ => SOk [SCert 200 900] []);
+             mkRunIn ex_dir (Some ex_params) [Regular conf] (Honest 7) (fun _ => None) (fun _ => SOk [SCert 201 901; SPlain 201] [])] in
+  map o_store (snd (session (fun n => 100 + N.of_nat n) (fun n => 200 + N.of_nat n) rs (init_state [ex_foreign])))
   = [[ex_foreign; key_ident 200 3660; cert_ident 200 900 3660];
      [ex_foreign; key_ident 200 3660; key_ident 201 3660; cert_ident 201 901 3660]].
 Proof. vm_compute. reflexivity. Qed.
